@@ -11,6 +11,7 @@ KNOWN_FILE = os.path.join(VERIF, 'known_findings.txt')
 TIER_CAPS = {  # per-query caps: (timeout s, address-space GB)
     'quick': (900, 20),
     'thorough': (3600, 40),
+    'deep': (7200, 56),
 }
 
 
@@ -58,7 +59,9 @@ class Check:
         shutil.rmtree(wd, ignore_errors=True)
         os.makedirs(os.path.join(wd, 'replay'), exist_ok=True)
         rnd = random.Random(seed)
-        qs = [q for q in self.queries if q.tier == 'quick' or tier == 'thorough']
+        # tiers: quick < thorough < deep.  'deep' queries were measured to need most of the machine for 10-60 min EACH (one at a time); they are
+        # not part of any registered command and exist for manual runs (--tier deep --only <regex>).
+        qs = [q for q in self.queries if q.tier == 'quick' or (tier == 'thorough' and q.tier != 'deep') or tier == 'deep']
         known, fixed = load_known()
         cap_t, cap_m = TIER_CAPS[tier]
         jobs = self.jobs or int(os.environ.get('VERIF_JOBS', '8'))
